@@ -2,6 +2,7 @@ package main
 
 import (
 	"fmt"
+	"go/token"
 	"strings"
 
 	"golang.org/x/tools/go/ssa"
@@ -320,6 +321,13 @@ func runC05(p *Program, r *Report) {
 			r.Undec("C05.R4", "template."+name, "", "anchor not found")
 			continue
 		}
+		// both wrappers may share one helper that is handed the execution as a function value
+		if h, ok := sharedCollectHelper(p, f); ok {
+			okH, why := checkCollectHelper(p, f, h, conv)
+			r.Check(okH, "C05.R4", fnName(f)+"#via:"+h.Name(), p.Pos(f.Pos()), "the result is that of "+h.Name()+", which converts its private buffer only after the execution it was handed returned nil", why)
+			r.Check(okH, "C05.R4", fnName(f)+"#via:"+h.Name()+"#error", p.Pos(f.Pos()), "error ⇒ zero HTML (the partial buffer is discarded)", why)
+			continue
+		}
 		fpe := newPathExplorer(p, f)
 		for _, pth := range fpe.Paths() {
 			v1, zero1, ok := pth.ResultValue(1)
@@ -355,7 +363,7 @@ func runC05(p *Program, r *Report) {
 			continue
 		}
 		if len(callsIn(f, conv)) > 0 {
-			ok := f.Name() == "ExecuteToHTML" || f.Name() == "ExecuteTemplateToHTML"
+			ok := f.Name() == "ExecuteToHTML" || f.Name() == "ExecuteTemplateToHTML" || helperOnlyOf(p, f, isToHTMLWrapper, 0)
 			r.Check(ok, "C05.R4", fnName(f)+"#unchecked-conversion", p.Pos(f.Pos()), "the unchecked conversion is used by a buffered *ToHTML wrapper", "the unchecked HTML conversion is called outside the two buffered wrappers")
 		}
 	}
@@ -381,4 +389,127 @@ func stateConst(p *Program, name string) int64 {
 		}
 	}
 	return -1
+}
+
+func isToHTMLWrapper(g *ssa.Function) bool {
+	return g != nil && g.Pkg != nil && g.Pkg.Pkg.Path() == pkgTemplate && (g.Name() == "ExecuteToHTML" || g.Name() == "ExecuteTemplateToHTML")
+}
+
+// sharedCollectHelper: every return of the wrapper hands on both results of one call of a helper that only
+// the wrappers use.
+func sharedCollectHelper(p *Program, f *ssa.Function) (*ssa.Function, bool) {
+	var h *ssa.Function
+	for _, ret := range Returns(f) {
+		if len(ret.Results) != 2 {
+			return nil, false
+		}
+		e0, ok0 := ret.Results[0].(*ssa.Extract)
+		e1, ok1 := ret.Results[1].(*ssa.Extract)
+		if !ok0 || !ok1 || e0.Tuple != e1.Tuple || e0.Index != 0 || e1.Index != 1 {
+			return nil, false
+		}
+		call, ok := e0.Tuple.(*ssa.Call)
+		if !ok {
+			return nil, false
+		}
+		g := staticCallee(call.Common())
+		if g == nil || g.Pkg != f.Pkg || (h != nil && h != g) {
+			return nil, false
+		}
+		h = g
+	}
+	if h == nil || !helperOnlyOf(p, h, isToHTMLWrapper, 0) {
+		return nil, false
+	}
+	return h, true
+}
+
+// checkCollectHelper: h(render) runs render against a buffer of its own, converts the buffer only where
+// render returned nil, returns the zero HTML with every non-nil error; the function value the wrapper
+// passes does nothing but return the gated Execute/ExecuteTemplate of the package on that writer.
+func checkCollectHelper(p *Program, wrapper, h *ssa.Function, conv string) (bool, string) {
+	var dyn *ssa.Call
+	var convCall *ssa.Call
+	for _, b := range h.Blocks {
+		for _, in := range b.Instrs {
+			c, ok := in.(*ssa.Call)
+			if !ok {
+				continue
+			}
+			if _, isPrm := c.Common().Value.(*ssa.Parameter); isPrm && !c.Common().IsInvoke() {
+				if dyn != nil {
+					return false, "more than one call of a function parameter in " + h.Name()
+				}
+				dyn = c
+			}
+			if g := staticCallee(c.Common()); g != nil && fnName(g) == conv {
+				if convCall != nil {
+					return false, "more than one conversion in " + h.Name()
+				}
+				convCall = c
+			}
+		}
+	}
+	if dyn == nil || convCall == nil || len(dyn.Common().Args) != 1 {
+		return false, h.Name() + " does not call the function it is handed on a writer and convert the result"
+	}
+	sc, ok := isCallTo(convCall.Common().Args[0], "(*bytes.Buffer).String")
+	if !ok || unIface(dyn.Common().Args[0]) != sc.Common().Args[0] {
+		return false, "the converted string is not the contents of the buffer the execution wrote to"
+	}
+	if _, fresh := sc.Common().Args[0].(*ssa.Alloc); !fresh {
+		return false, "the buffer is not private to " + h.Name()
+	}
+	nilChecked := false
+	for _, g := range GuardsOf(convCall.Block()) {
+		if bo, ok := g.Cond.(*ssa.BinOp); ok && bo.X == ssa.Value(dyn) {
+			if k, ok := bo.Y.(*ssa.Const); ok && k.Value == nil && ((bo.Op == token.EQL) == g.Pol) {
+				nilChecked = true
+			}
+		}
+	}
+	if !nilChecked {
+		return false, "the buffer is converted without a test that the execution returned nil"
+	}
+	for _, ret := range Returns(h) {
+		if len(ret.Results) != 2 {
+			return false, "unexpected results"
+		}
+		if k, ok := ret.Results[1].(*ssa.Const); ok && k.Value == nil {
+			if ret.Results[0] != ssa.Value(convCall) {
+				return false, "a nil-error return does not carry the converted buffer"
+			}
+			continue
+		}
+		if k, ok := ret.Results[0].(*ssa.Const); !ok || k.Value != nil {
+			return false, "an error return carries a non-zero HTML"
+		}
+	}
+	// the function value passed by the wrapper
+	for _, b := range wrapper.Blocks {
+		for _, in := range b.Instrs {
+			c, ok := in.(*ssa.Call)
+			if !ok || staticCallee(c.Common()) != h {
+				continue
+			}
+			mc, ok := c.Common().Args[0].(*ssa.MakeClosure)
+			if !ok {
+				return false, "the execution handed to " + h.Name() + " is not a function literal"
+			}
+			lit := mc.Fn.(*ssa.Function)
+			rets := Returns(lit)
+			if len(rets) != 1 || len(lit.Params) != 1 {
+				return false, "the function literal is not a single return"
+			}
+			ec, ok := rets[0].Results[0].(*ssa.Call)
+			g := (*ssa.Function)(nil)
+			if ok {
+				g = staticCallee(ec.Common())
+			}
+			if g == nil || g.Pkg != wrapper.Pkg || (g.Name() != "Execute" && g.Name() != "ExecuteTemplate") || len(ec.Common().Args) < 2 || unIface(ec.Common().Args[1]) != ssa.Value(lit.Params[0]) {
+				return false, "the function literal does not return the package's Execute/ExecuteTemplate on the writer it is given"
+			}
+		}
+	}
+	return true, ""
 }
